@@ -44,6 +44,15 @@ func fnRoundTrip() *run.Fn {
 		if len(ps) != 1 {
 			return w.L(PointsVal(ps))
 		}
+		var vs []*object.Point
+		if sid {
+			vs, err = shape.GetPointOnSpatialId(id, enum.Vertex)
+		} else {
+			vs, err = shape.GetPointOnExtendedSpatialId(id, enum.Vertex)
+		}
+		if err != nil {
+			return w.WithErr(w.Nil{}, err)
+		}
 		var back []string
 		if sid {
 			attrs, e := shape.VerifGetExtendedSpatialIdAttrs(sidToEid(id))
@@ -64,7 +73,7 @@ func fnRoundTrip() *run.Fn {
 		if len(back) != 1 {
 			return w.L(PointVal(ps[0]), w.Strs(back))
 		}
-		return w.L(PointVal(ps[0]), w.S(back[0]))
+		return w.L(PointVal(ps[0]), w.S(back[0]), PointsVal(vs))
 	}}
 }
 
@@ -91,8 +100,9 @@ func fnShared() *run.Fn {
 	}}
 }
 
+// the vertical point of (f, v), obtained the way the public function obtains it
 func vpoint(a []w.Val) object.VerticalPoint {
-	return object.VerticalPoint{Alt: w.AsFlt(a[3]), Resolution: w.AsFlt(a[4])}
+	return shape.VerifGetAltitudeOnVerticalIndexAndZoom(w.AsInt(a[3]), w.AsInt(a[4]))
 }
 func fnVertexHook() *run.Fn {
 	return &run.Fn{Name: "VertexHook", Invoke: func(a []w.Val) w.Val {
@@ -139,6 +149,14 @@ func respell(g *Gen, n int64) string {
 
 type id5 struct{ h, x, y, v, f int64 }
 
+// the same ID in another spelling that strconv.ParseInt accepts
+func (i id5) eidRespelled(g *Gen) string {
+	return respell(g, i.h) + "/" + respell(g, i.x) + "/" + respell(g, i.y) + "/" + respell(g, i.v) + "/" + respell(g, i.f)
+}
+func (i id5) sidRespelled(g *Gen) string {
+	return respell(g, i.h) + "/" + respell(g, i.f) + "/" + respell(g, i.x) + "/" + respell(g, i.y)
+}
+
 func (i id5) eid() string { return EID(i.h, i.x, i.y, i.v, i.f) }
 func (i id5) sid() string { return SID(i.h, i.f, i.x, i.y) }
 
@@ -161,6 +179,10 @@ func validID(g *Gen) id5 {
 	}
 	if g.Chance(0.01) {
 		id = id5{0, 0, 0, 0, g.Pick(0, -1)}
+	}
+	if g.Chance(0.01) { // every extreme at once
+		m := int64(1)<<35 - 1
+		id = id5{35, g.Pick(0, m), g.Pick(0, m, m-1, 1), 35, g.Pick(-m-1, m, -1, 0)}
 	}
 	return id
 }
@@ -254,7 +276,7 @@ func idTags(i id5) []string {
 }
 
 func init() {
-	Scale["C02"] = 20000
+	Scale["C02"] = 16000
 	Registry["C02"] = func(r *run.Runner, g *Gen, n int) {
 		MathOracles(r)
 		r.Register(fnPointOnEid(), fnPointOnSid(), fnRoundTrip(), fnShared(), fnVertexHook(), fnCentreHook(), fnAltHook(), fnAttrsHook())
@@ -319,7 +341,7 @@ func init() {
 			case k < 36:
 				s := id.eid()
 				if g.Chance(0.06) {
-					s = respell(g, id.h) + "/" + respell(g, id.x) + "/" + respell(g, id.y) + "/" + respell(g, id.v) + "/" + respell(g, id.f)
+					s = id.eidRespelled(g)
 					tags = append(tags, "respelled")
 				}
 				r.Run(run.Case{Prop: "C02", Fn: "GetPointOnExtendedSpatialId", Tags: tags, Args: []w.Val{w.S(s), w.I(opt)}})
@@ -327,7 +349,12 @@ func init() {
 				id.v = id.h
 				id.f = g.VIndex(id.v)
 				tags = append(idTags(id), Tag("option=%d", opt), "sid")
-				r.Run(run.Case{Prop: "C02", Fn: "GetPointOnSpatialId", Tags: tags, Args: []w.Val{w.S(id.sid()), w.I(opt)}})
+				s := id.sid()
+				if g.Chance(0.06) {
+					s = id.sidRespelled(g)
+					tags = append(tags, "respelled")
+				}
+				r.Run(run.Case{Prop: "C02", Fn: "GetPointOnSpatialId", Tags: tags, Args: []w.Val{w.S(s), w.I(opt)}})
 			case k < 68:
 				sidForm := g.Chance(0.25)
 				s := id.eid()
@@ -340,11 +367,27 @@ func init() {
 				if sidForm {
 					tags = append(tags, "sid")
 				}
+				if g.Chance(0.05) {
+					tags = append(tags, "respelled")
+					if sidForm {
+						s = id.sidRespelled(g)
+					} else {
+						s = id.eidRespelled(g)
+					}
+				}
 				r.Run(run.Case{Prop: "C02", Fn: "CentreRoundTrip", Tags: tags, Args: []w.Val{w.S(s), w.B(sidForm)}})
 			case k < 90:
 				// a face-adjacent pair inside the grid: pick an axis on which the neighbour exists
 				ww := int64(1) << uint(id.h)
 				vv := int64(1) << uint(id.v)
+				if g.Chance(0.15) { // across the antimeridian: last column and column 0 of the same row (zoom 0: the voxel and itself)
+					id.x = ww - 1
+					nb := id
+					nb.x = 0
+					tags = append(idTags(id), "shared-axis=3")
+					r.Run(run.Case{Prop: "C02", Fn: "SharedFaces", Tags: tags, Args: []w.Val{w.S(id.eid()), w.S(nb.eid()), w.I(3)}})
+					continue
+				}
 				axis := int64(g.Intn(3))
 				nb := id
 				ok := false
@@ -386,19 +429,26 @@ func init() {
 					continue
 				}
 				tags = append(idTags(id), Tag("shared-axis=%d", axis))
-				r.Run(run.Case{Prop: "C02", Fn: "SharedFaces", Tags: tags, Args: []w.Val{w.S(id.eid()), w.S(nb.eid()), w.I(axis)}})
+				sa, sb := id.eid(), nb.eid()
+				if g.Chance(0.05) {
+					sa, sb = id.eidRespelled(g), nb.eidRespelled(g)
+					tags = append(tags, "respelled")
+				}
+				r.Run(run.Case{Prop: "C02", Fn: "SharedFaces", Tags: tags, Args: []w.Val{w.S(sa), w.S(sb), w.I(axis)}})
 			case k < 94:
 				// the helpers outside the grid: clamp of the row, wrap of the column
 				ww := int64(1) << uint(id.h)
 				x := g.Pick(-1, -ww, -ww-1, ww, ww+1, 2*ww-1, 2*ww, 3*ww+id.x, -2*ww+id.x, id.x, ww-1, ww-2)
 				y := g.Pick(-1, -5, ww, ww+1, ww-1, ww-2, 2*ww, id.y, id.y, 0)
-				vp := shape.VerifGetAltitudeOnVerticalIndexAndZoom(id.f, id.v)
+				if g.Chance(0.3) { // inside the grid as well
+					x, y = id.x, id.y
+				}
 				fn := "VertexHook"
 				if g.Chance(0.4) {
 					fn = "CentreHook"
 				}
 				r.Run(run.Case{Prop: "C02", Fn: fn, Tags: []string{"hook", Tag("hzoom=%d", id.h)},
-					Args: []w.Val{w.I(x), w.I(y), w.I(id.h), w.F(vp.Alt), w.F(vp.Resolution)}})
+					Args: []w.Val{w.I(x), w.I(y), w.I(id.h), w.I(id.f), w.I(id.v)}})
 			case k < 97:
 				r.Run(run.Case{Prop: "C02", Fn: "AltHook", Tags: []string{"hook", Tag("vzoom=%d", id.v)}, Args: []w.Val{w.I(id.f), w.I(id.v)}})
 			default:
